@@ -109,23 +109,25 @@ def valSys (ρ : String → Option Word) (f : String) : Bool :=
 mutual
 /-- The statements of stage (4), with calls of pure functions in operands if `pk`; `ρ` are the
     global constants (a call through a constant is a system call). -/
-def okS5 (pk : Bool) (ps imp : List String) (ρ : String → Option Word) : X.Stmt → Bool
+def okS5 (pk : Bool) (ps imp : List String) (ρ : String → Option Word) (loc : String → Bool) : X.Stmt → Bool
   | .skip | .stop => true
   | .ret e => rhs5 pk ps imp ρ e
-  | .ite c t e => cond5 pk ps imp ρ c && okS5 pk ps imp ρ t && okS5 pk ps imp ρ e
-  | .while c b => cond5 pk ps imp ρ c && okS5 pk ps imp ρ b
-  | .seq ss => okS5L pk ps imp ρ ss
+  | .ite c t e => cond5 pk ps imp ρ c && okS5 pk ps imp ρ loc t && okS5 pk ps imp ρ loc e
+  | .while c b => cond5 pk ps imp ρ c && okS5 pk ps imp ρ loc b
+  | .seq ss => okS5L pk ps imp ρ loc ss
   | .assign _ e => rhs5 pk ps imp ρ e
   | .syscall id args => decide (id < 3) && sysArgs5 pk ps imp ρ args
   | .call f args => (ps.contains f && argsOk5 pk ps imp ρ args) || (valSys ρ f && sysArgs5 pk ps imp ρ args)
-  | .assignSub _ i e => pureE i && pureE e
-def okS5L (pk : Bool) (ps imp : List String) (ρ : String → Option Word) : List X.Stmt → Bool
+  | .assignSub n i e =>
+    ((pureE i || (pk && ppE ps imp i)) && (pureE e || (pk && ppE ps imp e))) ||
+    (ipE5 pk ps imp ρ i && isConstL ρ e) || (isConstL ρ i && ipE5 pk ps imp ρ e && loc n)
+def okS5L (pk : Bool) (ps imp : List String) (ρ : String → Option Word) (loc : String → Bool) : List X.Stmt → Bool
   | [] => true
-  | s :: ss => okS5 pk ps imp ρ s && okS5L pk ps imp ρ ss
+  | s :: ss => okS5 pk ps imp ρ loc s && okS5L pk ps imp ρ loc ss
 end
 
 mutual
-theorem okS4_okS5 (pk : Bool) (ps imp : List String) (ρ : String → Option Word) : (s : X.Stmt) → okS4 ps s = true → okS5 pk ps imp ρ s = true
+theorem okS4_okS5 (pk : Bool) (ps imp : List String) (ρ : String → Option Word) (loc : String → Bool) : (s : X.Stmt) → okS4 ps s = true → okS5 pk ps imp ρ loc s = true
   | .skip, _ => rfl
   | .stop, _ => rfl
   | .ret e, h => by
@@ -139,15 +141,15 @@ theorem okS4_okS5 (pk : Bool) (ps imp : List String) (ρ : String → Option Wor
   | .ite c t e, h => by
     simp only [okS4, Bool.and_eq_true] at h
     simp only [okS5, cond5, Bool.and_eq_true, Bool.or_eq_true]
-    exact ⟨⟨Or.inl (Or.inl h.1.1), okS4_okS5 pk ps imp ρ t h.1.2⟩, okS4_okS5 pk ps imp ρ e h.2⟩
+    exact ⟨⟨Or.inl (Or.inl h.1.1), okS4_okS5 pk ps imp ρ loc t h.1.2⟩, okS4_okS5 pk ps imp ρ loc e h.2⟩
   | .while c b, h => by
     simp only [okS4, Bool.and_eq_true] at h
     simp only [okS5, cond5, Bool.and_eq_true, Bool.or_eq_true]
-    exact ⟨Or.inl (Or.inl h.1), okS4_okS5 pk ps imp ρ b h.2⟩
+    exact ⟨Or.inl (Or.inl h.1), okS4_okS5 pk ps imp ρ loc b h.2⟩
   | .seq ss, h => by
     simp only [okS4] at h
     simp only [okS5]
-    exact okS4L_okS5L pk ps imp ρ ss h
+    exact okS4L_okS5L pk ps imp ρ loc ss h
   | .syscall _ _, h => by
     simp only [okS4, Bool.and_eq_true] at h
     simp only [okS5, sysArgs5, Bool.and_eq_true, Bool.or_eq_true]
@@ -156,13 +158,16 @@ theorem okS4_okS5 (pk : Bool) (ps imp : List String) (ρ : String → Option Wor
     simp only [okS4, Bool.and_eq_true] at h
     simp only [okS5, argsOk5, Bool.and_eq_true, Bool.or_eq_true]
     exact Or.inl ⟨h.1, Or.inl (Or.inl h.2)⟩
-  | .assignSub _ _ _, h => by simp only [okS4] at h; simp only [okS5]; exact h
-theorem okS4L_okS5L (pk : Bool) (ps imp : List String) (ρ : String → Option Word) : (ss : List X.Stmt) → okS4L ps ss = true → okS5L pk ps imp ρ ss = true
+  | .assignSub _ _ _, h => by
+    simp only [okS4, Bool.and_eq_true] at h
+    simp only [okS5, Bool.and_eq_true, Bool.or_eq_true]
+    exact Or.inl (Or.inl ⟨Or.inl h.1, Or.inl h.2⟩)
+theorem okS4L_okS5L (pk : Bool) (ps imp : List String) (ρ : String → Option Word) (loc : String → Bool) : (ss : List X.Stmt) → okS4L ps ss = true → okS5L pk ps imp ρ loc ss = true
   | [], _ => rfl
   | s :: ss, h => by
     simp only [okS4L, Bool.and_eq_true] at h
     simp only [okS5L, Bool.and_eq_true]
-    exact ⟨okS4_okS5 pk ps imp ρ s h.1, okS4L_okS5L pk ps imp ρ ss h.2⟩
+    exact ⟨okS4_okS5 pk ps imp ρ loc s h.1, okS4L_okS5L pk ps imp ρ loc ss h.2⟩
 end
 
 /-- `val` and `array` formals. -/
@@ -256,6 +261,9 @@ theorem GCtx.locOf_cases (G : GCtx) (pi : PInfo) (sp : Nat) (n : String) (a : Na
         · rw [if_neg hc] at h; simp at h
     · rw [if_neg hloc] at h; simp at h
 
+/-- The name has a place (a variable, an array, a formal) in the procedure. -/
+def GCtx.isLoc (G : GCtx) (pi : PInfo) (n : String) : Bool := (G.locOf pi G.lo n).isSome
+
 /-- The context of an activation of `pi` with stack pointer `sp` at nesting depth `dep`. -/
 def KOf (G : GCtx) (pi : PInfo) (sp dep : Nat) (hi : Nat → Word) : PCtx :=
   { env := G.env, out := G.cg, ctx := G.ctxOf pi, xc := G.xc, ρ := G.rho, sp := sp,
@@ -302,7 +310,7 @@ structure GCtx.OK (G : GCtx) : Prop where
   nl_ok : ∀ pi ∈ G.procs, pi.p.locals.length ≤ pi.gs1.offset
   consts_ok : ∀ pi ∈ G.procs, ∀ x ∈ pi.gs2.items, x ∈ G.items
   smax_ok : ∀ pi ∈ G.procs, G.S pi ≤ G.smax
-  body_ok : ∀ pi ∈ G.procs, okS5 G.pk G.pnames G.xc.impure G.rho pi.p.body = true
+  body_ok : ∀ pi ∈ G.procs, okS5 G.pk G.pnames G.xc.impure G.rho (G.isLoc pi) pi.p.body = true
   pure_ok : G.pk = true → PureOk G.xc
   formals_ok : ∀ pi ∈ G.procs, pi.p.formals.all isVAFormal = true
   locals_var : ∀ pi ∈ G.procs, pi.p.locals.all isVarDecl = true
